@@ -111,11 +111,15 @@ def parse_dump(d):
     out = []
     for ent in d.split(","):
         f = ent.split(":")
+        if len(f) != 6:
+            return None          # not a dump (truncated / overflow marker inside): judged as a broken graph
         dup = f[0].startswith("DUP")
         kind = f[0][3:] if dup else f[0]
 
         def r(x):
             return None if x == "-" else (-2 if x == "?" else int(x))
+        if not all(x in ("-", "?") or x.isdigit() for x in f[2:]):
+            return None
         out.append({"kind": kind, "payload": f[1], "parent": r(f[2]), "child": r(f[3]), "prev": r(f[4]), "next": r(f[5]),
                     "dup": dup})
     return out
@@ -124,7 +128,7 @@ def parse_dump(d):
 def links_ok(nodes):
     """mutual consistency of parent / first child / prev / next over the whole dumped graph"""
     if nodes is None:
-        return "graph walk did not terminate (cycle)"
+        return "graph walk did not terminate (cycle) or the dump is not well formed"
     n = len(nodes)
     for i, x in enumerate(nodes):
         if x["dup"]:
